@@ -2,7 +2,7 @@ from common import Ctx, RULES
 from legs import run_classified_leg
 
 PID = "C10"
-COQ_FILES = ["Model/Base.v", "Model/SigSpec.v", "Gen/Tracer.v", "Model/Tracer.v", "Proofs/TracerProofs.v", "Properties/C10.v"]
+COQ_FILES = ["Model/Base.v", "Model/SigSpec.v", "Gen/Tracer.v", "Model/Tracer.v", "Proofs/TracerProofs.v", "Ties/TracerTie.v", "Properties/C10.v"]
 RULES[PID] = ("e2e leg: a debuggee with counting handlers for SIGINT/USR1/USR2/ALRM/CHLD/URG/VTALRM/PROF/WINCH/IO runs 3-6 rounds with a breakpoint per "
               "round; at every stop 0-3 distinct signals are sent with kill() (they become pending), followed by 1-12 stepi or directly by continue; "
               "signal stops are collected; at exit the debuggee prints its counters. Spec (decided in Coq): every counter equals the number of sends "
